@@ -275,6 +275,34 @@ UNPARSABLE = [
     "#[tauri::command]\npub fn ghost() -> String { String::new() }\n}\n",
     "#[tauri::command\nfn ghost() {}\n",
 ]
+# the CONTENT of unparsable files as a dimension: non-ASCII identifiers / string literals / comments before the
+# place where the parser gives up (character column != byte offset), errors at column 0, at the end of a line, on a
+# last line without newline, far into a very long line, on line 1 after a byte order mark, NUL bytes, lexer errors.
+# Each text holds a ghost command where the syntax allows: a text that parsed after all would show up as a wrapper.
+UNPARSABLE_ODD = [
+    "#[tauri::command]\npub fn begr\u00fc\u00dfe(name: String -> String { name }\n",
+    "#[tauri::command]\nfn \u53d6\u5f97( {\n",
+    "#[command]\nfn ghost() { let s = \"\u65e5\u672c\u8a9e\u306e\u30c6\u30ad\u30b9\u30c8\"; let = ; }\n",
+    "#[command]\nfn ghost() { let s = \"\U0001f600\U0001f600\U0001f600\"; let = }\n",
+    "// \u00dcberschrift \u00e4\u00f6\u00fc\n#[command] fn ghost() -> { }\n",
+    "#[command] fn ghost() {}\n/* \u30b3\u30e1\u30f3\u30c8 */ struct ;",
+    "#[command] fn ghost() {}\n) \u00e9\n",
+    "#[command] fn ghost() {}\nconst \u00c4\u00d6: u8 = ",
+    "#[command] fn ghost() {}\nconst \u00c4\u00d6: u8 =\n",
+    "#[command] fn ghost() {} " + "/* \u00fc\u00fc */ " * 1500 + "struct ;\n",
+    "\ufefffn \u00e9( {\n#[command] fn ghost() {}\n",
+    "\ufeff#[command] fn ghost() {} /* \u00e9\u00e9\u00e9 */ }\n",
+    "#[command] fn ghost() {}\n\x00\n",
+    "fn a\x00\u00e9() {}\n#[command] fn ghost() {}\n",
+    "#[command] fn ghost() { '\u00e9\u00e9 }\n",
+    "\"\u65e5\u672c unterminated\n#[command] fn ghost() {}\n",
+    "/* \u65e5\u672c unterminated\n#[command] fn ghost() {}\n",
+    "#[command]\r\nfn gr\u00fc\u00df( {\r\n",
+    "#[command] fn ghost() {}\nstruct S { \u540d\u524d: String, \u5e74\u9f62 u8 }\n",
+    "#[command] fn ghost() -> Result<\u00c9tat, String { todo!() }\n",
+    "\u00e9",
+]
+UNPARSABLE = UNPARSABLE + UNPARSABLE_ODD + UNPARSABLE_ODD
 NOTUTF8 = [
     b"// caf\xe9\n#[tauri::command]\nfn ghost() {}\n",
     b"\xff\xfe#[tauri::command] fn ghost() {}\n",
@@ -593,6 +621,9 @@ def stats(case, acc):
                     items(n["items"], True)
             else:
                 acc["file_kind:" + n["kind"]] = acc.get("file_kind:" + n["kind"], 0) + 1
+                if n["kind"] == "unparsable":
+                    k_ = "unparsable:non_ascii_text" if any(ord(ch) > 127 for ch in n["raw"]) else "unparsable:ascii_text"
+                    acc[k_] = acc.get(k_, 0) + 1
                 acc["file_depth:%d" % depth] = acc.get("file_depth:%d" % depth, 0) + 1
                 ext = "rs" if n["name"].endswith(".rs") and len(n["name"]) > 3 else "other"
                 acc["file_ext:" + ext] = acc.get("file_ext:" + ext, 0) + 1
